@@ -218,6 +218,15 @@ def solve_scipy(
             scipy_constraints, result.x, atol, rtol
         )
 
+    # Methods outside BOUNDS_METHODS ignore variable bounds: check them after the
+    # solve so that an out-of-bounds point is never reported as optimal
+    bounds_unenforced = bool(bounds) and method not in BOUNDS_METHODS
+    if result.success and bounds_unenforced:
+        bound_violation = _max_bound_violation(bounds, result.x, atol)
+        if bound_violation > 0.0:
+            max_violation = max(max_violation, bound_violation)
+            constraints_violated = True
+
     # If SLSQP returned "optimal" but constraints are violated, retry with trust-constr
     if constraints_violated and method == "SLSQP":
         warnings.warn(
@@ -250,6 +259,8 @@ def solve_scipy(
         # The solution is typically still good - treat as optimal, but only if
         # the point is feasible (SLSQP also ends this way on infeasible problems)
         violated, _ = _check_constraints(scipy_constraints, result.x, atol, rtol)
+        if bounds_unenforced and _max_bound_violation(bounds, result.x, atol) > 0.0:
+            violated = True
         status = SolverStatus.INFEASIBLE if violated else SolverStatus.OPTIMAL
     else:
         status = SolverStatus.FAILED
@@ -299,6 +310,17 @@ def _check_constraints(
             max_violation = max(max_violation, violation)
             constraints_violated = True
     return constraints_violated, max_violation
+
+
+def _max_bound_violation(bounds: list, x: np.ndarray, atol: float) -> float:
+    """Largest amount by which x leaves [lb, ub] beyond atol (0.0 if inside)."""
+    worst = 0.0
+    for (lb, ub), x_i in zip(bounds, x):
+        if x_i < lb - atol:
+            worst = max(worst, lb - x_i)
+        elif x_i > ub + atol:
+            worst = max(worst, x_i - ub)
+    return worst
 
 
 def _compute_initial_point(
